@@ -19,7 +19,7 @@ ALL_CHECKS = ["C04", "C05", "C08", "C03", "C10", "C11", "C18", "C06", "R08", "R0
 BASE = dict(Splits=frozenset({"train", "test"}), FillerDirs=frozenset({(), ("s",), ("s", "t")}),
             WriterNames=("u1", "u2", "u3", "u4", "u5", "u6"), EPS=2, MDs=frozenset({"None"}),
             Kinds=frozenset({"good"}), Streaming=False, Hashing=True, Atomic=True, MaxSessions=2, MaxWrites=3,
-            MaxK=2, Dedupe=True, EmptyRoll=False, MdByRef=False, UseRef=False, Protocol="good", NoMkdir=False, CheckChildren=True, CrashOn=False, ReaderOn=False)
+            MaxK=2, Dedupe=True, EmptyRoll=False, MdByRef=False, UseRef=False, Protocol="good", NoMkdir=False, CheckChildren=True, MaxMoves=0, CrashOn=False, ReaderOn=False)
 
 INVARIANTS = ["TypeOK", "NoSessionFails", "C04_Exact", "C05_Pass", "C08_AppendOnly", "C03_WriteOrder", "C10_Size",
               "C11_Label", "C18_AllOrNothing", "C06_CrashSafe", "C09_NoSharedPath"]
@@ -132,7 +132,7 @@ def run_history(task: dict) -> dict:
                 try:
                     if h is None:
                         from sedpack.io import Dataset
-                        h = Dataset(root)
+                        h = Dataset(rp.root)
                     h.check(show_progressbar=False)
                 except Exception as exc:  # pylint: disable=broad-except
                     out["problems"].append(("check-failed", f"step {i} {nm}: check() on the {which} handle raised "
@@ -140,17 +140,17 @@ def run_history(task: dict) -> dict:
                     break
             # creating a dataset where one exists is refused and changes nothing (C08)
             if task.get("create_again", True):
-                before = _snapshot_bytes(root)
+                before = _snapshot_bytes(rp.root)
                 try:
                     from sedpack.io import Dataset, Metadata
-                    Dataset.create(root, Metadata(description="again"),
+                    Dataset.create(rp.root, Metadata(description="again"),
                                    dsreal.structure(task["fmt"], task.get("compression", ""), 7, ("md5",)))
                     out["problems"].append(("create-again-accepted", f"step {i}: Dataset.create on an existing "
                                             f"dataset returned normally"))
                 except Exception as exc:  # pylint: disable=broad-except
                     if type(exc).__name__ != "DatasetExistsError":
                         out["problems"].append(("create-again-error", f"step {i}: {type(exc).__name__}"))
-                if _snapshot_bytes(root) != before:
+                if _snapshot_bytes(rp.root) != before:
                     out["problems"].append(("create-again-changed", f"step {i}: a refused Dataset.create changed "
                                             f"files on disk"))
         for kind, what in rp.problems:
